@@ -57,6 +57,7 @@ def guard_check(check):
             return {"clause": "diverged", "observed": "call did not return within 5 s", "expected": "termination", "signature": sig}
 
     wrapped.__name__ = check.__name__
+    wrapped.raw = check
     return wrapped
 
 
@@ -253,7 +254,8 @@ def same(a, b):
 
 def first_diff(xs, ys):
     if len(xs) != len(ys):
-        return {"len_observed": len(xs), "len_expected": len(ys)}
+        return {"observed": f"{len(xs)} entries, last {_short(xs[-1] if xs else None, 80)}",
+                "expected": f"{len(ys)} entries, last {_short(ys[-1] if ys else None, 80)}"}
     for i, (x, y) in enumerate(zip(xs, ys)):
         if not same(x, y):
             return {"index": i, "observed": _short(x), "expected": _short(y)}
@@ -419,7 +421,7 @@ def names_collide(members, cfg, cross=False):
     names = [member_name(m, cfg) for m in members]
     if len(set(names)) != len(names):
         return True
-    for m, nm in zip(members, names):
+    for m in members:
         for o, on in zip(members, names):
             if m is o or (not cross and (m.get("tf") or None) != (o.get("tf") or None)):
                 continue  # cross: Hexital.reading falls through to the other timeframes, so a helper name matters there as well
@@ -504,6 +506,10 @@ def c08_signature(scn, clause, member=None):
 @guard_check
 def check_c08(scn):
     """None | {'skip': why} | violation description"""
+    return _c08_diagnose(scn, _c08_core(scn))
+
+
+def _c08_core(scn):
     cfg = scn["hx"]
     members = scn["members"]
     stream = scn["stream"]
@@ -559,6 +565,26 @@ def check_c08(scn):
     if bad:
         return bad
     return None if any_reading else {"skip": "no reading produced"}
+
+
+HA_SIG = "C08:Hexital:heikin-ashi+timeframe-member"
+
+
+def _c08_diagnose(scn, bad):
+    """keep the Heikin-Ashi signature only if the same scenario passes with plain candles (otherwise report what fails there)"""
+    if not bad or bad.get("signature") != HA_SIG or scn.get("_plain"):
+        return bad
+    plain = deepcopy(scn)
+    plain["_plain"] = True
+    plain["hx"]["ha"] = False
+    try:
+        other = _c08_core(plain)
+    except Exception:
+        other = None
+    if other and "skip" not in other:
+        other["note"] = "also fails with candlestick_type=None (shown); the scenario asks for Heikin-Ashi"
+        return other
+    return bad
 
 
 def gen_c08(rng, size=50, allow_hx_tf=True, allow_ha_member_tf=True, wide=False):
@@ -718,7 +744,7 @@ def case_c08_roundtrip(rng, idx, params):
         cfg["ha"] = False  # Heikin-Ashi + member timeframe inside a Hexital is reported by case_c08
         cfg["life"] = None  # a lifespan trims the base candles before a member timeframe collapses them (outside C08's domain)
     n = rng.randint(12, 40)
-    stream, smeta = gen_stream_for(rng, n, base_tf, True, price_style=rng.choice(["walk", "walk", "ints", "jumpy"]), ts_style="regular")
+    stream, _ = gen_stream_for(rng, n, base_tf, True, price_style=rng.choice(["walk", "walk", "ints", "jumpy"]), ts_style="regular")
     scn = {"check": "c08.roundtrip", "spec": spec, "tf": tf, "full": full, "cfg": cfg, "stream": stream}
     bad = check_roundtrip(scn)
     viol = None
@@ -745,21 +771,47 @@ def case_c08_roundtrip(rng, idx, params):
 OPS = ["purge", "recalculate", "remove_indicator", "calculate"]
 
 
-def c13_signature(scn, clause, target=None):
+NAME_SIGS = ("C13:Hexital.purge:substring-match", "C13:BBANDS:helper-name-collision", "C13:ATR:helper-name-collision")
+
+
+def _c13_relation(scn, clause, target=None):
+    """(signature, index of the member whose renaming removes the name relation | None) from the names alone"""
     members = scn["members"]
     names = [member_name(m) for m in members]
     obs, obs_name = members[0], names[0]
     if target is not None and clause in OPS:
         tname = names[target]
         if tname != obs_name and tname in obs_name and clause != "calculate":
-            return "C13:Hexital.purge:substring-match"
-    for m, n in list(zip(members, names))[1:]:
-        rel = helper_relation(obs, m, n) or helper_relation(m, obs, obs_name)
+            return NAME_SIGS[0], target
+    for k, (m, n) in list(enumerate(zip(members, names)))[1:]:
+        rel = helper_relation(obs, m, n)
         if rel:
-            return f"C13:{rel}:helper-name-collision"
-    # two composites leaving a helper under the same default name
-    others = "+".join(sorted({spec_label(m) for m in members[1:]}))
-    return f"C13:{spec_label(obs)}|{others}:{clause}"
+            return f"C13:{rel}:helper-name-collision", k
+        rel = helper_relation(m, obs, obs_name)
+        if rel:
+            return f"C13:{rel}:helper-name-collision", 0
+    if clause in OPS:
+        return f"C13:Hexital.{clause}:changes-other-member", None
+    return f"C13:Hexital:{clause}", None
+
+
+def c13_signature(scn, clause, target=None):
+    """A name-relation signature is only given when the relation is the cause: the same scenario with the related
+    member renamed (name_suffix) must pass; otherwise the failure is reported under the generic signature, so that a
+    new defect never hides behind a known naming finding."""
+    sig, ren = _c13_relation(scn, clause, target)
+    if ren is None or scn.get("_renamed"):
+        return sig
+    renamed = deepcopy(scn)
+    renamed["_renamed"] = True
+    renamed["members"][ren]["suffix"] = (renamed["members"][ren].get("suffix") or "") + "zq"
+    try:
+        still = check_c13.raw(renamed)
+    except Exception:
+        still = None
+    if still and "skip" not in still:
+        return f"C13:Hexital.{clause}:changes-other-member" if clause in OPS else f"C13:Hexital:{clause}"
+    return sig
 
 
 def _run_solo(member, scn):
@@ -853,19 +905,18 @@ def gen_c13(rng, size=50):
     flavour = rng.choice(["substring", "substring", "suffix", "helper", "helper", "random", "random", "random"])
     members = None
     if flavour == "substring":
-        kind = rng.choice(["EMA", "SMA", "RMA", "WMA", "HL", "VWMA", "ATR", "STDEV", "WMA/VWMA", "TR/ATR", "HL/HLA?"])
+        # the short name is a substring of the long one: EMA_3 / EMA_30, SMA_1 / SMA_12, WMA_2 / VWMA_20, TR / ATR_14 ...
+        kind = rng.choice(["EMA", "EMA", "SMA", "RMA", "WMA", "HL", "VWMA", "ATR", "STDEV", "WMA/VWMA", "TR/ATR", "HLA/HL"])
         if kind == "WMA/VWMA":
             d = rng.choice([1, 2])
             members = [{"kind": "VWMA", "params": {"period": d * 10 + rng.randint(0, 2)}}, {"kind": "WMA", "params": {"period": d}}]
         elif kind == "TR/ATR":
-            members = [{"kind": rng.choice(["ATR", "ATR", "KC"]), "params": {"period": rng.randint(2, 6)}}, {"kind": "TR", "params": {}}]
-        elif kind == "HL/HLA?":
-            members = [{"kind": "HLA", "params": {}}, {"kind": "HL", "params": {"period": rng.randint(2, 6)}}]  # 'HL_n' is no substring of 'HLA'
+            members = [{"kind": rng.choice(["ATR", "ATR", "KC"]), "params": {"period": rng.choice([2, 3, 5, 14])}}, {"kind": "TR", "params": {}}]
+        elif kind == "HLA/HL":  # control: 'HL_n' is NOT contained in 'HLA'
+            members = [{"kind": "HLA", "params": {}}, {"kind": "HL", "params": {"period": rng.randint(2, 6)}}]
         else:
-            d = rng.choice([1, 1, 2, 3]) if kind not in ("ATR", "STDEV", "VWMA", "HL") else rng.choice([2, 3])
-            long = d * 10 + rng.randint(0, 3) if d == 1 else d * 10
-            if kind in ("ATR", "STDEV", "VWMA", "HL"):
-                long = d * 10
+            d = rng.choice([1, 1, 2, 3]) if kind in ("EMA", "SMA", "RMA", "WMA") else rng.choice([2, 3])
+            long = d * 10 + (rng.randint(0, 3) if d == 1 else 0)
             members = [{"kind": kind, "params": {"period": long}}, {"kind": kind, "params": {"period": d}}]
         if rng.random() < 0.3:
             members.reverse()  # observe the short-named one, operate on the long-named one
@@ -1265,6 +1316,7 @@ def case_c19_readonly(rng, idx, params):
             small, bad2 = scn, bad
         viol = {"scenario": small, **bad2}
     meta["skipped"] = skipped
+    meta["some_accessor_refused"] = calls["raised"] > 0
     return {"nontrivial": not skipped and sum(len(p) for p in scn["program"]) > 0, "key": hash(str(scn)), "violation": viol, "meta": meta,
             "evals": max(1, sum(len(p) for p in scn["program"])), "sample": _sample(scn) | {"program": scn["program"][:3]} if idx < 2 else None}
 
